@@ -1,39 +1,31 @@
-// corr: correspondence drivers.  usage: corr <driver> <out-trace> [args]
+// corr: correspondence drivers.  usage: corr <driver> <out-trace>
+// Drivers register themselves (see reg_*.go in this directory).
 package main
 
 import (
 	"fmt"
 	"os"
+	"sort"
 
-	"verifharness/lrudrv"
 	"verifharness/tr"
 )
 
 func main() {
 	if len(os.Args) < 3 {
-		fmt.Fprintln(os.Stderr, "usage: corr <driver> <out>")
-		os.Exit(2)
-	}
-	drv, out := os.Args[1], os.Args[2]
-	t := tr.New(out)
-	defer t.Close()
-	thorough := os.Getenv("VERIF_TIER") == "thorough"
-	switch drv {
-	case "lru":
-		r := tr.Rng(16)
-		if thorough {
-			lrudrv.Sequential(t, r, tr.EnvInt("LRU_SEQ", 20000))
-			lrudrv.ConcExhaustive(t, r, tr.EnvInt("LRU_PROGS", 150), 4000)
-			lrudrv.ConcRandom(t, r, tr.EnvInt("LRU_RAND", 3000))
-			lrudrv.Unscheduled(t, r, tr.EnvInt("LRU_FREE", 300))
-		} else {
-			lrudrv.Sequential(t, r, tr.EnvInt("LRU_SEQ", 1500))
-			lrudrv.ConcExhaustive(t, r, tr.EnvInt("LRU_PROGS", 12), 1500)
-			lrudrv.ConcRandom(t, r, tr.EnvInt("LRU_RAND", 300))
-			lrudrv.Unscheduled(t, r, tr.EnvInt("LRU_FREE", 40))
+		names := []string{}
+		for n := range tr.Drivers {
+			names = append(names, n)
 		}
-	default:
-		fmt.Fprintln(os.Stderr, "unknown driver", drv)
+		sort.Strings(names)
+		fmt.Fprintln(os.Stderr, "usage: corr <driver> <out>; drivers:", names)
 		os.Exit(2)
 	}
+	d, ok := tr.Drivers[os.Args[1]]
+	if !ok {
+		fmt.Fprintln(os.Stderr, "unknown driver", os.Args[1])
+		os.Exit(2)
+	}
+	t := tr.New(os.Args[2])
+	defer t.Close()
+	d(t, os.Getenv("VERIF_TIER") == "thorough")
 }
